@@ -147,7 +147,7 @@ PLANS = {
     },
     "C18": {
         "level": "proof",
-        "sidecars": ["dxcube"],
+        "sidecars": ["dxcube", "pqrformat"],
         "extras": [],
         "explanation": "write_cube against the numeric token stream of the file (z3 sequences, loop invariant)",
     },
